@@ -53,6 +53,7 @@ func c05(o Opts) error {
 		{"malformed", func() { malformed(h, r, sz) }},
 		{"concurrent", func() { concurrent(h, r, sz) }},
 		{"barrier", func() { barrierRace(h, sz.barrier) }},
+		{"mapper", func() { mapperSection(h, r, sz.barrier/4) }},
 		{"extras", func() { extras(h, r, sz) }},
 	}
 	for _, s := range sections {
